@@ -154,13 +154,8 @@ impl ScmSocket for ScriptedStream {
                 Ok((0, n))
             }
             ReadAns::Data(bytes, f) => {
-                if bytes.len() > space {
-                    c.protocol_errors.push(format!(
-                        "harness scripted {} bytes for {} bytes of space",
-                        bytes.len(),
-                        space
-                    ));
-                }
+                // More bytes may have arrived than the connection has room for: like a socket,
+                // hand over what fits; the harness keeps the rest.
                 let mut off = 0usize;
                 for v in iovecs.iter_mut() {
                     if off >= bytes.len() {
